@@ -72,7 +72,7 @@ ls_check!(
 ls_check!(
     C09,
     "C09",
-    40_000,
+    32_000,
     &[Oracle::Protection],
     |r| gen_adversarial(r),
     "Adversarial user-mode blocks aiming LD/ST/LDI/STI (pointer and target)/LDR/STR/JMP/JSRR/BR/fall-through fetch/TRAP pointers/RTI at every boundary address (x0000,x01FF,x0200,x2FFF,x3000,xFDFF,xFE00..xFE06,xFFFC,xFFFE,xFFFF, recording-device ports) and random ones, code placed at x3000.. or ending at xFDFF, real and virtual traps, interrupts alternating the mode, ignore_privilege flipped by the host, control arm with checks off. Monitored at every step whose pre-state is user mode with checks on: violation reported exactly when the model says so, no device reached (device log), keyboard queue/PSR/MCR unchanged, observer shows nothing outside user space, memory outside user space unchanged (touched-set + full sweeps). Non-trivial: >=1 refused and >=1 permitted access in the run."
